@@ -25,7 +25,7 @@ def call_rules(run, r_call, r_final, u):
                 run.violation(r_call, "%s|unchecked-path" % route, "%s has a path to its return (line %s) that never validates the class id with checked_perfect_hash::hash_type_id: an unregistered class yields a v-table pointer instead of an unknown_class_error" % (short, bad.line), f.where())
     # nobody but the checked hash calls the unchecked one under this policy
     for f in mod.funcs.values():
-        if not f.body or "yorel::yomm2" not in f.dname:
+        if not f.body or not irq.is_lib_name(f.dname):
             continue
         if re.search(r"checked_perfect_hash<.*>::hash_type_id\(", f.dname):
             continue
